@@ -168,6 +168,26 @@ func throughJSON(x poly.Sequence) (poly.Sequence, error) {
 	return y, nil
 }
 
+// viaFile: the parsed input written with polyjson.Write, read with polyjson.Read and written back in its own format
+// gives the text that writing the parsed input directly gave (direct was built before the JSON file was written);
+// and the parsed input still writes that text afterwards.
+func viaFile(parsed poly.Sequence, build func(poly.Sequence) []byte, direct []byte, format string) error {
+	p := filepath.Join(vk.WorkDir(), "t.json")
+	defer os.Remove(p)
+	polyjson.Write(parsed, p)
+	if via := build(polyjson.Read(p)); string(via) != string(direct) {
+		i := 0
+		for i < len(via) && i < len(direct) && via[i] == direct[i] {
+			i++
+		}
+		return vk.Errf("%s -> polyjson.Write -> polyjson.Read -> %s differs from writing the parsed input directly (first difference at byte %d):\n  direct: …%s\n  via the JSON file: …%s", format, format, i, string(direct[max(0, i-100):min(len(direct), i+150)]), string(via[max(0, i-100):min(len(via), i+150)]))
+	}
+	if again := build(parsed); string(again) != string(direct) {
+		return vk.Errf("after polyjson.Write the parsed %s input no longer writes the text it wrote before (the writer changed its argument)", format)
+	}
+	return nil
+}
+
 func check(c Case) error {
 	switch c.Kind {
 	case "genbank":
@@ -179,6 +199,9 @@ func check(c Case) error {
 			return err
 		}
 		if err := sameValue("JSON round trip of a parsed GenBank record", parsed, y); err != nil {
+			return err
+		}
+		if err := viaFile(parsed, func(z poly.Sequence) []byte { return genbank.Build(z) }, direct, "GenBank"); err != nil {
 			return err
 		}
 		if via := genbank.Build(y); string(via) != string(direct) {
@@ -199,6 +222,9 @@ func check(c Case) error {
 		if err := sameValue("JSON round trip of a parsed GFF file", parsed, y); err != nil {
 			return err
 		}
+		if err := viaFile(parsed, func(z poly.Sequence) []byte { return gff.Build(z) }, direct, "GFF"); err != nil {
+			return err
+		}
 		if via := gff.Build(y); string(via) != string(direct) {
 			return vk.Errf("GFF -> JSON -> GFF differs from writing the parsed input directly:\n--- direct ---\n%s\n--- via JSON ---\n%s", string(direct), string(via))
 		}
@@ -216,7 +242,11 @@ func check(c Case) error {
 	defer os.Remove(p)
 	vk.StaleFile(p, 4*len(x.Sequence)+20000)
 	vk.AlternateTempDir(func() { polyjson.Write(x, p) })
-	if err := sameValue("polyjson.Read(polyjson.Write(x))", x, polyjson.Read(p)); err != nil {
+	// Write leaves the value it was given as it was: compared with the same value built afresh from the case
+	if err := sameValue("the value handed to polyjson.Write, afterwards, against the same value built afresh (the writer must not change its argument)", build(c), x); err != nil {
+		return err
+	}
+	if err := sameValue("polyjson.Read(polyjson.Write(x))", build(c), polyjson.Read(p)); err != nil {
 		return err
 	}
 	// the written file through the other reading entry point
